@@ -11,7 +11,7 @@ for p in $patches; do
   ( cd $WT && git apply /verif/$p ) || { echo "$n does-not-apply"; git -C /repo worktree remove --force $WT; continue; }
   VERIF_REPO=$WT ./tools/baseline.sh > /tmp/bn/$n.baseline 2>&1 || echo "$n BASELINE-CHANGED $(grep MISSING /tmp/bn/$n.baseline | head -2)"
   for id in C01 C02 C03 C04 C05 C06 C07 C08 C09 C10 C11 C12 C13 C14 C15 C16 C17 C18 C19 C20; do
-    out=$(VERIF_REPO=$WT ./check $id quick -no-evidence 2>&1); r=$?
+    out=$(VERIF_REPO=$WT ./check $id quick -no-evidence ${BENIGN_RUNS:+-runs $BENIGN_RUNS} 2>&1); r=$?   # BENIGN_RUNS=n: all directed cases, n random runs
     if [ $r -ne 0 ]; then rc=1; echo "$n $id FALSE-ALARM rc=$r: $(echo "$out" | grep -E 'signature|HARNESS|BUILD' | head -3 | tr '\n' ' ' | cut -c1-300)"; fi
   done
   echo "$n done"
